@@ -36,6 +36,8 @@ LossyM(v, ty) ==
          [] OTHER -> FALSE
 \* event mp: [v, ty, m = [ok, len], back = R, eq = "T"|"F"|"U"|"P" (orig.Equals(back))]
 MpFailed(e) ==
+  \* bytes handed out by an earlier Marshal call are the caller's: a later call does not rewrite them
+  (IF Has(e, "pb") /\ e.pb # e.pb2 THEN {"C16.RoundTrip", "C20.Immutable"} ELSE {}) \cup
   \* premise of the property: the value's type conforms to the constraint (otherwise only "no panic" is claimed)
   IF ~Conforms(e.v.ty, e.ty) THEN (IF (~e.m.ok /\ e.m.fail = "panic") \/ (e.m.ok /\ ~e.back.ok /\ e.back.fail = "panic") THEN {"C16.NoPanic"} ELSE {})
   ELSE IF MarksIn(e.v) # {} THEN (IF e.m.ok THEN {"C16.MarkedRejected"} ELSE IF e.m.fail = "panic" THEN {"C16.NoPanic"} ELSE {})
